@@ -126,7 +126,7 @@ def is_inf(x):
     return isinstance(x, float) and math.isinf(x)
 
 
-def random_spec(seed, nvars, max_dom=3, unary=True, nary=False, connected=True, costkinds=("plain", "plain", "func", "dict")):
+def random_spec(seed, nvars, max_dom=3, unary=True, nary=False, connected=True, costkinds=("plain", "plain", "func", "dict"), tree=False):
     """a seeded random problem in the spec format of net.build_dcop: a random spanning tree (when ``connected``) plus a few
     extra binary constraints (cycles -> pseudo-parents), optional unary and ternary constraints, non-identity domains of
     2..max_dom values, some variables with an own cost.  Used by the sampled native pass on shapes that are too large
@@ -147,7 +147,7 @@ def random_spec(seed, nvars, max_dom=3, unary=True, nary=False, connected=True, 
     for i in range(1, nvars):
         if connected or rng.random() < 0.75:
             edges.append([order[i], order[rng.randrange(i)]])
-    for _ in range(rng.randint(0, max(1, nvars // 2))):
+    for _ in range(0 if tree else rng.randint(0, max(1, nvars // 2))):
         a, b = rng.sample(names, 2)
         if [a, b] not in edges and [b, a] not in edges:
             edges.append([a, b])
@@ -156,7 +156,7 @@ def random_spec(seed, nvars, max_dom=3, unary=True, nary=False, connected=True, 
         for n in names:
             if rng.random() < 0.25:
                 cons.append([n])
-    if nary and nvars >= 3 and rng.random() < 0.5:
+    if nary and not tree and nvars >= 3 and rng.random() < 0.5:
         cons.append(rng.sample(names, 3))
     rng.shuffle(cons)
     return dict(vars=vars_, cons=cons)
